@@ -814,7 +814,7 @@ func runC08(c *ctx) {
 		jobs = jobs[rangeLo:rangeHi]
 	}
 	runs := make([]c08run, len(jobs))
-	workers := 12
+	workers := vlib.Conc(12)
 	var wg sync.WaitGroup
 	ch := make(chan int)
 	for w := 0; w < workers; w++ {
